@@ -199,6 +199,8 @@ var specs = []spec{
 		Params: []string{"pq *productQuantizer", "i int", "kmeans utils.KMeans"}, Results: []string{"pq"}}),
 	pqFit("pq_fitCentroidDists", &fragSpec{First: "for j := 0; j < pq.params.NumCentroids; j++ {", Has: "pq.centroidDists[", Last: "for j := 0; j < pq.params.NumCentroids; j++ {",
 		Params: []string{"pq *productQuantizer", "i int", "kmeans utils.KMeans"}, Results: []string{"pq"}}),
+	// the product quantiser's encode: nearest centroid per sub-vector; float32 is an abstract ordered type (comparisons only)
+	pqEnc("flatCentroidSlice", nil), pqEnc("encode", []string{"maxFloat32"}),
 	// the binary quantiser: which of bit distance / float distance its two distance closures use
 	bqSpec("DistanceFromFloat"), bqSpec("DistanceFromPoint"),
 }
@@ -221,6 +223,12 @@ func pqSpec(fn, name string, fr *fragSpec) spec {
 			{File: "shard/vectorstore/product.go", Name: "productQuantizer", Only: []string{"params", "distFn", "subVectorLen", "centroidDists", "flatCentroids"}},
 			{File: "shard/vectorstore/product.go", Name: "productQuantizedPoint", Only: []string{"Vector", "CentroidIds"}}},
 		Frag: fr}
+}
+
+func pqEnc(fn string, prims []string) spec {
+	return spec{File: "shard/vectorstore/product.go", Func: fn, Recv: "productQuantizer", Module: "PQEncode", Ext: true, FloatAbs: "D", Prims: prims,
+		Structs: []structSpec{{File: "models/quantizer.go", Name: "ProductQuantizerParameters"}, {File: "distance/distance.go", Name: "FloatDistFunc"},
+			{File: "shard/vectorstore/product.go", Name: "productQuantizer", Only: []string{"params", "distFn", "subVectorLen", "flatCentroids"}}}}
 }
 
 func pqFit(name string, fr *fragSpec) spec {
